@@ -1,0 +1,16 @@
+//go:build verif
+
+package types
+
+// Contracts for the deductive checker in /verif (comment-only; compiled only with -tags verif).
+// chainid_ok / chainid_num: /verif/specs/c03/63_eip712.spec (regular-expression match and base-10 conversion, uninterpreted).
+
+/*@
+// ParseChainID: "<name>_<EIP155 number>-<epoch>" -> a new big integer holding the EIP-155 number (capture group 2);
+// any string that does not match the chain-id expression with a non-empty name is refused
+func ParseChainID
+    ensures ok: (result.1 == nil) ==> chainid_ok(chainID)
+    ensures value: result.1 == nil ==> result.0 != nil && fresh(result.0) && *result.0 == chainid_num(chainID)
+    ensures refused: !chainid_ok(chainID) ==> result.1 != nil && result.0 == nil
+    ensures failed: result.1 != nil ==> result.0 == nil
+@*/
